@@ -157,7 +157,8 @@ impl Gen {
         self.memo("value", budget, |g| {
             let mut out = vec![];
             out.extend(seq(&lit("$"), &lit("v"), budget));
-            out.extend(lits(if g.rich { &["\"s\"", "\"é𝄞\"", "1", "-1", "0", "true", "null"] } else { &["\"s\"", "1", "true"] }));
+            // (a character outside the BMP is not a SourceCharacter; the parser rejects it in a string, see the token alphabet)
+            out.extend(lits(if g.rich { &["\"s\"", "\"é\"", "1", "-1", "0", "true", "null"] } else { &["\"s\"", "1", "true"] }));
             if budget >= 2 {
                 let inner = g.value(budget.saturating_sub(4));
                 let entry = seqs(&[&lit("a"), &lit(":"), &inner], budget);
